@@ -649,8 +649,17 @@ def run_write_order_handler(w, r, rng):
     for k in group:
         ns[k] = C.Parameter(f'group member {k}', C.FloatRange(), readonly=False, default=0.0)
 
+    # the driver may read the hardware record first (the usual pattern for a device with one combined set command): the
+    # members it was not asked to write take the values the hardware has - but every CONFIGURED value still arrives
+    refresh = rng.random() < 0.5
+    hw = {k: 100.0 + i for i, k in enumerate(group)}
+
     def write_group(self, values):
+        if refresh:
+            for k in group:
+                setattr(self, k, hw[k])
         got = {k: float(values[k]) for k in group}
+        hw.update(got)
         events.append(('write-group', got))
         for k, v in got.items():
             setattr(self, k, v)
@@ -673,7 +682,7 @@ def run_write_order_handler(w, r, rng):
     single = rng.random() < 0.6
     if single:
         cfg['single'] = {'value': 7.5}
-    case = {'sub': 'write-order-handler', 'group': group, 'configured': configured, 'single': single}
+    case = {'sub': 'write-order-handler', 'group': group, 'configured': configured, 'single': single, 'reads_hardware_first': refresh}
     try:
         node = w.nodes.Node({'g': cfg}, testonly=False).build()
     except BaseException as e:
@@ -693,7 +702,9 @@ def run_write_order_handler(w, r, rng):
         if len(gw) != 1:
             r.violation(f'C10/configured-write-count/{len(gw)}/common-handler', f'the common write method was called {len(gw)}x for the configured values {configured}: {evs[:6]}', case)
             return
-        want = {k: configured.get(k, 0.0) for k in group}
+        want = {k: configured.get(k, 100.0 + group.index(k) if refresh else 0.0) for k in group}
+        if refresh:
+            r.count('common_handlers_reading_the_hardware_first')
         if gw[0][1] != want:
             r.violation('C10/configured-write-value/common-handler', f'the common write method received {gw[0][1]}, configured {want}', case)
             return
